@@ -87,6 +87,27 @@ def ob_lock_coverage():
                 written = any(isinstance(n, ast.Name) and n.id == name and isinstance(n.ctx, (ast.Store, ast.Del)) for n in ast.walk(fn_node))
                 if name not in GLOBALS and written:
                     problems.append(f"{fn_node.name} (line {g.lineno}) rebinds the shared variable {name}, which is not one of the lock-guarded variables {GLOBALS}")
+    # pairing: wherever a backend call takes the guard, it gives it back on EVERY exit - `_enter_z3()` only inside the body of a try whose
+    # finally calls `_exit_z3()`, and `_exit_z3()` only in such a finally (condom is written this way; a helper that enters and leaves on
+    # the normal path only leaks the count when the solver gives up)
+    def _calls(node, name):
+        return [n for n in ast.walk(node) if isinstance(n, ast.Call) and isinstance(n.func, ast.Name) and n.func.id == name]
+    paired_enter, paired_exit = set(), set()
+    for t in [n for n in ast.walk(tree) if isinstance(n, ast.Try)]:
+        ent = [c_ for st in t.body for c_ in _calls(st, "_enter_z3")]
+        ext = [c_ for st in t.finalbody for c_ in _calls(st, "_exit_z3")]
+        if ent and ext:
+            paired_enter |= {id(c_) for c_ in ent}
+            paired_exit |= {id(c_) for c_ in ext}
+    for fn_node in [n for n in ast.walk(tree) if isinstance(n, (ast.FunctionDef, ast.AsyncFunctionDef)) and n.name not in ("_enter_z3", "_exit_z3")]:
+        for c_ in _calls(fn_node, "_enter_z3"):
+            n_access += 1
+            if id(c_) not in paired_enter:
+                problems.append(f"{fn_node.name} (line {c_.lineno}) calls _enter_z3() outside a try whose finally calls _exit_z3(): an exception leaves the collector disabled")
+        for c_ in _calls(fn_node, "_exit_z3"):
+            n_access += 1
+            if id(c_) not in paired_exit:
+                problems.append(f"{fn_node.name} (line {c_.lineno}) calls _exit_z3() outside the finally of a try that entered")
     # _gc_lock bound exactly once, to threading.Lock()
     binds = [n for n in ast.walk(tree) if isinstance(n, ast.Assign) and any(isinstance(t, ast.Name) and t.id == "_gc_lock" for t in n.targets)]
     if len(binds) != 1 or ast.unparse(binds[0].value) not in ("threading.Lock()", "threading.RLock()"):
@@ -397,5 +418,28 @@ def replay_threads(task=None, failure=None):
             e.set()
         (gc.enable if was else gc.disable)()
     bad = obs["both inside"][0] or obs["A returned, B inside"][0] or obs["A returned, B inside"][1] < 1 or not obs["both returned"][0] or obs["both returned"][1] != 0
-    return {"reproduced": bool(bad), "text": "two threads in wrapped Z3 calls, (collector enabled, calls in progress) " + "; ".join(f"{k}: {v}" for k, v in obs.items())
-            + (" - the collector ran / the count was wrong while a Z3 call was in progress" if bad else " - as required")}
+    text = "two threads in wrapped Z3 calls, (collector enabled, calls in progress) " + "; ".join(f"{k}: {v}" for k, v in obs.items()) \
+        + (" - the collector ran / the count was wrong while a Z3 call was in progress" if bad else " - as required")
+    if bad:
+        return {"reproduced": True, "text": text}
+    # second scenario: a solver call that gives up (1 ms budget on a 64-bit factoring question) must give the guard back as well
+    import claripy
+    gc.enable()
+    try:
+        x, y = claripy.BVS("kf_gc_x", 64), claripy.BVS("kf_gc_y", 64)
+        s = claripy.Solver(timeout=1)
+        s.add([x * y == 0xC96F7E5B0BC3B8E5, claripy.UGT(x, 1), claripy.UGT(y, 1), claripy.ULT(x, 1 << 32), claripy.ULT(y, 1 << 32)])
+        how = "answered"
+        try:
+            s.satisfiable()
+        except Exception as e:  # noqa
+            how = type(e).__name__
+        after = (gc.isenabled(), bz._active_z3_calls)
+    finally:
+        bz._active_z3_calls = 0 if bz._active_z3_calls < 0 else bz._active_z3_calls
+        (gc.enable if was else gc.disable)()
+    bad2 = (not after[0]) or after[1] != 0
+    if bad2:
+        bz._active_z3_calls = 0
+    return {"reproduced": bool(bad2), "text": text + f"; a satisfiable() with a 1 ms budget ended with {how}: afterwards (collector enabled, calls in progress) = {after}"
+            + (" - the guard was not given back" if bad2 else "")}
